@@ -92,30 +92,30 @@ class Check:
         self._distinct.add(hashlib.blake2b(repr(key).encode(), digest_size=8).digest())
 
     # ------------------------------------------------------------- integrity
-    def forbid_scan(self, allow_bv_decide_in=("Bridge",)):
-        """grep the Lean tree for constructs that would void the proofs"""
+    def forbid_scan(self, allow_bv_decide_in=("Bridge",), modules=None):
+        """grep the Lean sources this property depends on (transitive imports, inside the
+        project, of its theorem modules and its driver) for constructs that would void the
+        proofs.  Called without `modules` it only arms the scan; `build_proofs` then runs it on
+        the import closure of what it builds."""
+        if modules is None:
+            self._scan_armed = allow_bv_decide_in
+            return []
+        files = import_closure(modules)
         hits = []
-        for root, _, files in os.walk(LEAN):
-            if ".lake" in root:
-                continue
-            for f in files:
-                if not f.endswith(".lean"):
+        for p in sorted(files):
+            txt = strip_lean_comments(open(p, encoding="utf-8").read())
+            for i, line in enumerate(txt.split("\n"), 1):
+                m = FORBIDDEN.search(line)
+                if not m:
                     continue
-                p = os.path.join(root, f)
-                txt = open(p, encoding="utf-8").read()
-                txt = strip_lean_comments(txt)
-                for i, line in enumerate(txt.split("\n"), 1):
-                    m = FORBIDDEN.search(line)
-                    if not m:
-                        continue
-                    tok = (m.group(1) or m.group(0)).strip()
-                    if tok == "bv_decide" and any(a in p for a in allow_bv_decide_in):
-                        continue
-                    # `unsafe` etc. inside string literals of drivers are not expected either
-                    hits.append(f"{os.path.relpath(p, VERIF)}:{i}: {line.strip()[:100]}")
+                tok = (m.group(1) or m.group(0)).strip()
+                if tok == "bv_decide" and any(a in p for a in allow_bv_decide_in):
+                    continue
+                hits.append(f"{os.path.relpath(p, VERIF)}:{i}: {line.strip()[:100]}")
+        self.cov["forbidden_scan_files"] = len(files)
         self.cov["forbidden_scan_hits"] = len(hits)
         if hits:
-            self.broken.append("forbidden construct in Lean tree: " + "; ".join(hits[:5]))
+            self.broken.append("forbidden construct in Lean sources of this property: " + "; ".join(hits[:5]))
             self.proof_ok = False
         return hits
 
@@ -136,6 +136,10 @@ class Check:
         """Build the theorem modules (+ driver exe). prop_modules: modules whose `theorem`s
         are the proof obligations of this property (Props file and Bridge files)."""
         targets = list(prop_modules) + list(extra_modules)
+        scan_mods = list(targets)
+        if driver and driver.startswith("drv_c"):
+            scan_mods.append("Driver.C" + driver[5:])
+        self.forbid_scan(getattr(self, "_scan_armed", ("Bridge",)), modules=scan_mods)
         ok, out = self.lake(targets)
         self.cov["checker_cmd"] = "cd lean && lake build " + " ".join(targets) + \
             " && lake env lean <generated #print axioms audit>"
@@ -508,6 +512,22 @@ def strip_lean_comments(txt):
             out.append(c)
             i += 1
     return "".join(out)
+
+
+def import_closure(modules):
+    """files of the project's own modules reachable through `import` from `modules`"""
+    seen, todo = set(), list(modules)
+    while todo:
+        m = todo.pop()
+        p = module_path(m)
+        if p in seen or not os.path.exists(p):
+            continue
+        seen.add(p)
+        for line in open(p, encoding="utf-8"):
+            mm = re.match(r"^\s*(?:public\s+)?import\s+(?:all\s+)?([A-Za-z0-9_.']+)", line)
+            if mm and mm.group(1).split(".")[0] in ("Usual", "UsualProofs", "Driver"):
+                todo.append(mm.group(1))
+    return seen
 
 
 def module_path(mod):
